@@ -84,9 +84,11 @@ prop("C04", quick={"runs": 8000}, thorough={"runs": 100000000, "budget_s": 600},
      rules=["C04.R1 stuck (scheduler state, not a timeout)", "C04.R2 lock-leak (VerifKeyLocks()==0 at quiescence)",
             "C04.R3 cannot-rebuild (follow-up Get must invoke its builder and return its value)",
             "C04.R4 last-build-lost (every successful build's value was stored under the Get's key)",
-            "C04.R5 old-backend-error-served (the error of a rejected backend call never answers a Get invoked after it with nothing in flight for the key)"],
+            "C04.R5 old-backend-error-served (the error of a rejected backend call never answers a Get invoked after it with nothing in flight for the key)",
+            "C04.R6 bounded liveness in simulated time: a waiting Get returns within 0.5 simulated seconds of the return of everything invoked before it started waiting, "
+            "not after a later owner's builder that sleeps for seconds"],
      probes=["key_overwritten_while_background_build_pending", "ctx_cancelled_with_background_build", "background_build",
-             "get_invoked_during_build", "backend_error_reached_a_get"])
+             "get_invoked_during_build", "backend_error_reached_a_get", "waiter_liveness_checked"])
 prop("C05", quick={"runs": 8000}, thorough={"runs": 100000000, "budget_s": 600},
      rule=FO_RULE + "Even runs: SyncRead bursts of 2-8 clients on one missing/expired key; odd runs: sequences of Gets with failing "
      "builders and clock jumps around FailedUpdateTTL. Non-trivial: overlapping Gets on one key.",
